@@ -268,3 +268,45 @@ META = {
         "technique": "stress-schedule runtime monitoring (1 us switch interval + seeded line-level yield injection via sys.monitoring) with a sequential reference oracle and registry/cache invariants",
     },
 }
+
+
+# families added after the seeded-change rounds (DESIGN.md 8.5)
+_ADDED = {
+    "C01": " A multiprocessing family runs a module-level graph in a process pool in three shapes (nothing inlined; source, "
+           "chain and savers inlined; inlining that starts at a plugin with a dependency), optionally with an overlap-window "
+           "plugin behind the chain; a fan-out graph (two exhaust plugins and a plugin merging the source with both) puts "
+           "three readers at different paces on one data type.",
+    "C02": " Two to four contexts live side by side (contexts derived with new_context stay in use beside their parents), "
+           "every context has its own model of what it was told, mutations go to subsets of the contexts, registrations are "
+           "only sometimes followed by an observation, releases may change version and another attribute at once (also back "
+           "to an earlier version), an option is tracked by one plugin and untracked by another, and a fuzzy context copies "
+           "to a second frontend.",
+    "C03": " Pool saving also runs on a cooperative scheduler (seeded random / PCT order of the queued chunk writes); forked "
+           "savers are driven the way a ParallelSourcePlugin drives them; chunk files of ~1 MB are loaded concurrently by "
+           "eight threads (all reads in flight at once) for every compressor.",
+    "C04": " An inlined-savers family injects the fault inside the pool worker process that writes the chunk (write, rename, "
+           "per-chunk metadata; exception or death of the worker) and at every parent-side event; the state oracle also "
+           "looks at the directory through a read-only frontend.",
+    "C06": " Further stages: chunk write failing on a pool worker thread; plugin computation or inlined saver failing inside a "
+           "pool worker process; a 40-chunk source that must stop after the failure; multi-output plugins computed in the "
+           "pool with the target on the first or on the second output; a multi-output plugin declaring its own buffer size.",
+    "C08": " A two-input plugin (plus a two-output plugin behind it) is inlined into a process pool and compared with the "
+           "single-thread processor on identical chunkings (leftover rows must raise there too; every interval is handed to "
+           "the inlined plugins exactly once - call log written from the workers).",
+    "C10": " Partial requests are also issued for data that has to be computed (EXPLICIT outputs beside an unsaved ALWAYS "
+           "sibling), for a second stored type of the same kind with its own chunk layout, and on runs with epoch-scale "
+           "timestamps.",
+    "C11": " Strata: multi-output plugins with per-output policies x every request modifier; forbid_creation_of as tuple / list "
+           "/ string with nested type names; frontends with take_only and exclude; a request with a per-call option followed by "
+           "a plain one on the same context; inlined savers with one to three writable frontends.",
+    "C13": " Configurations with a worker pool (lazy allowed and forbidden) and with the source loaded from storage (chunk "
+           "reads of the backend are counted) are included; lazy mailboxes with several subscribers get ten PCT schedules.",
+    "C14": " Run names whose lexicographic order differs from their time order, definition lists in shuffled order, a two-input "
+           "join plugin with an input made for the superrun first, redefinition through the context that made the data (name "
+           "with and without the underscore), and a time-range read of the stored superrun are included.",
+    "C16": " The thread-mode rechunker also runs under the cooperative scheduler; copies go to one to three target frontends; "
+           "per-chunk jobs are also requested for a plugin taking chunk_i and for overlap-window plugins (which must be "
+           "refused).",
+}
+for _k, _t in _ADDED.items():
+    META[_k]["level_text"] += _t
